@@ -14,7 +14,8 @@ for i in ids:
     patch = os.path.join(V, "seeded", i, "patch.diff")
     r = subprocess.run(["git", "-C", REPO, "apply", "--3way", patch], capture_output=True, text=True)
     if r.returncode:
-        subprocess.run(["git", "-C", REPO, "checkout", "--", "."]); subprocess.run(["git", "-C", REPO, "reset", "-q"])
+        # (a conflicting 3-way apply leaves unmerged index entries: the index goes back first, then the files)
+        subprocess.run(["git", "-C", REPO, "reset", "-q"]); subprocess.run(["git", "-C", REPO, "checkout", "--", "."])
         print(f"{i}: PATCH-DOES-NOT-APPLY")
         bad += 1
         continue
